@@ -1,21 +1,31 @@
 ------------------------------ MODULE Rational ------------------------------
 (***************************************************************************)
 (* Exact rational arithmetic on pairs <<num, den>> with den > 0, reduced.  *)
-(* TLC integers are 32-bit; every product is cross-cancelled first and the *)
-(* callers keep magnitudes small (literals with <= 3 decimals).  An        *)
-(* overflow is a TLC error, i.e. a machinery failure, never a verdict.     *)
+(* TLC integers are 32-bit.  Every primitive product/sum is tested before  *)
+(* it is computed; an operation that would not fit returns the poison      *)
+(* value Ovf = <<0, 0>> and poison propagates.  Callers turn a poisoned    *)
+(* result into the verdict "skipped: magnitude" - never into a violation   *)
+(* and never into a TLC crash.                                             *)
 (***************************************************************************)
 EXTENDS Integers
 
+MaxInt == 2147483647
 Abs(x) == IF x < 0 THEN -x ELSE x
 Sgn(x) == IF x < 0 THEN -1 ELSE IF x = 0 THEN 0 ELSE 1
 Min2(a, b) == IF a <= b THEN a ELSE b
 Max2(a, b) == IF a >= b THEN a ELSE b
 
+MulFits(x, y) == x = 0 \/ y = 0 \/ Abs(x) <= MaxInt \div Abs(y)
+AddFits(x, y) == IF x >= 0 THEN y <= MaxInt - x ELSE y >= (-MaxInt) - x
+
 RECURSIVE Gcd(_, _)
 Gcd(a, b) == IF b = 0 THEN a ELSE Gcd(b, a % b)      \* a, b >= 0
 
-\* Build a rational from any numerator and any non-zero denominator.
+Ovf == <<0, 0>>
+IsOvf(a) == a[2] = 0
+Good(a) == a[2] > 0
+
+\* Build a rational from any numerator and any non-zero denominator (|n|, |d| < 2^31).
 Q(n, d) == LET s == IF d < 0 THEN -1 ELSE 1
                g == Gcd(Abs(n), Abs(d))
            IN  <<(s * n) \div g, (s * d) \div g>>
@@ -23,27 +33,45 @@ I(n) == <<n, 1>>
 Num(q) == q[1]
 Den(q) == q[2]
 IsInt(q) == q[2] = 1
-IsRat(q) == /\ q \in Int \X Int /\ q[2] > 0
 
-Neg(a) == <<-a[1], a[2]>>
-Add(a, b) == LET g == Gcd(a[2], b[2])
-             IN  Q(a[1] * (b[2] \div g) + b[1] * (a[2] \div g), (a[2] \div g) * b[2])
+Neg(a) == IF IsOvf(a) THEN Ovf ELSE <<-a[1], a[2]>>
+Add(a, b) ==
+    IF IsOvf(a) \/ IsOvf(b) THEN Ovf
+    ELSE LET g  == Gcd(a[2], b[2])
+             bg == b[2] \div g
+             ag == a[2] \div g
+         IN  IF ~MulFits(a[1], bg) \/ ~MulFits(b[1], ag) \/ ~MulFits(ag, b[2]) THEN Ovf
+             ELSE IF ~AddFits(a[1] * bg, b[1] * ag) THEN Ovf
+             ELSE Q(a[1] * bg + b[1] * ag, ag * b[2])
 Sub(a, b) == Add(a, Neg(b))
-Mul(a, b) == LET g1 == Gcd(Abs(a[1]), b[2])
-                 g2 == Gcd(Abs(b[1]), a[2])
-             IN  <<(a[1] \div g1) * (b[1] \div g2), (a[2] \div g2) * (b[2] \div g1)>>
-Inv(a) == IF a[1] < 0 THEN <<-a[2], -a[1]>> ELSE <<a[2], a[1]>>     \* a # 0
+Mul(a, b) ==
+    IF IsOvf(a) \/ IsOvf(b) THEN Ovf
+    ELSE LET g1 == Gcd(Abs(a[1]), b[2])
+             g2 == Gcd(Abs(b[1]), a[2])
+             n1 == a[1] \div g1
+             n2 == b[1] \div g2
+             d1 == a[2] \div g2
+             d2 == b[2] \div g1
+         IN  IF ~MulFits(n1, n2) \/ ~MulFits(d1, d2) THEN Ovf ELSE <<n1 * n2, d1 * d2>>
+Inv(a) == IF IsOvf(a) \/ a[1] = 0 THEN Ovf
+          ELSE IF a[1] < 0 THEN <<-a[2], -a[1]>> ELSE <<a[2], a[1]>>
 Div(a, b) == Mul(a, Inv(b))                                          \* b # 0
-IsZero(a) == a[1] = 0
+IsZero(a) == a[1] = 0 /\ a[2] > 0
 
-\* comparisons by cross-multiplication after cancelling the common denominator factor
-Cmp(a, b) == LET g == Gcd(a[2], b[2])
-             IN  Sgn(a[1] * (b[2] \div g) - b[1] * (a[2] \div g))
-Lt(a, b) == Cmp(a, b) < 0
-Le(a, b) == Cmp(a, b) <= 0
+\* comparison: -1, 0, 1; 9 when it cannot be decided inside 32 bits
+Cmp(a, b) ==
+    IF IsOvf(a) \/ IsOvf(b) THEN 9
+    ELSE LET g  == Gcd(a[2], b[2])
+             bg == b[2] \div g
+             ag == a[2] \div g
+         IN  IF ~MulFits(a[1], bg) \/ ~MulFits(b[1], ag) THEN 9
+             ELSE IF ~AddFits(a[1] * bg, -(b[1] * ag)) THEN 9
+             ELSE Sgn(a[1] * bg - b[1] * ag)
+Lt(a, b) == Cmp(a, b) = -1
+Le(a, b) == Cmp(a, b) \in {-1, 0}
 Eq(a, b) == a = b            \* both reduced
 
-Floor(a) == a[1] \div a[2]                    \* TLC's \div rounds toward minus infinity
+Floor(a) == a[1] \div a[2]                    \* TLC's \div rounds toward minus infinity; a Good
 Ceil(a) == -((-a[1]) \div a[2])
 Trunc(a) == IF a[1] >= 0 THEN Floor(a) ELSE Ceil(a)
 \* the integers nearest to a: one, or two at an exact tie
@@ -52,15 +80,21 @@ Nearest(a) == LET f == Floor(a)
               IN  IF Lt(r, <<1, 2>>) THEN {f}
                   ELSE IF r = <<1, 2>> THEN {f, f + 1} ELSE {f + 1}
 \* a mod b with the sign of the divisor (Python's %), b # 0
-Mod(a, b) == Sub(a, Mul(b, I(Floor(Div(a, b)))))
+Mod(a, b) == LET d == Div(a, b)
+             IN  IF IsOvf(d) THEN Ovf ELSE Sub(a, Mul(b, I(Floor(d))))
 
 RECURSIVE PowNat(_, _)
 PowNat(a, n) == IF n = 0 THEN I(1) ELSE Mul(a, PowNat(a, n - 1))
 Pow(a, n) == IF n >= 0 THEN PowNat(a, n) ELSE Inv(PowNat(a, -n))    \* integer exponent
 
-\* |x - a| <= 1/2 + 1/1000 for an integer x: "x is a nearest integer of a", with a sliver of
-\* tolerance so that binary floating point landing on the other side of an exact tie is accepted.
-NearInt(x, a) == LET diff == Abs(x * a[2] - a[1])
-                 IN  /\ diff <= a[2]
-                     /\ 1000 * diff <= 501 * a[2]
+\* "x is a nearest integer of a", with a sliver of tolerance (1/1000) so that binary floating
+\* point landing on the other side of an exact tie is accepted.  Written on the integer and
+\* fractional parts of a, so no product exceeds 1000 * den(a): needs den(a) <= 2 000 000.
+NearInt(x, a) == /\ Good(a) /\ a[2] <= 2000000
+                 /\ LET f  == Floor(a)
+                        rn == a[1] - f * a[2]           \* 0 <= rn < den
+                    IN  \/ x = f /\ 1000 * rn <= 501 * a[2]
+                        \/ x = f + 1 /\ 1000 * rn >= 499 * a[2]
+\* clamp to lo..hi (integers) without any product
+ClampQ(q, lo, hi) == IF Floor(q) < lo THEN I(lo) ELSE IF Floor(q) >= hi THEN I(hi) ELSE q
 =============================================================================
